@@ -1,5 +1,7 @@
 import Orb.Proto
 import Orb.Clip
+import Orb.ClipSpec
+import Orb.EvenOdd
 import Driver.C07
 import Driver.HeapOps
 import Generated.Params
@@ -55,6 +57,193 @@ def area2 (r : List (Pt Q)) : Q :=
 def inBoxTol (b : Bound Q) (p : Pt Q) : Bool :=
   b.lo.x - tol ≤ p.x && p.x ≤ b.hi.x + tol && b.lo.y - tol ≤ p.y && p.y ≤ b.hi.y + tol
 
+
+/-! ### "nothing remains" — exact classification of the INPUT against the box (over Rat)
+
+  ERROR ANALYSIS behind `tol = 1e-9`.  Every vertex the Go code tests is an input vertex or the result
+  of `intersect`: `a + (b-a)*(e-a')/(b'-a')` with the quotient in [0,1] (the segment crosses the clip
+  line), i.e. at most 5 roundings on magnitudes bounded by the coordinates (|v| ≤ 2^4 in every generator
+  of this property): absolute error < 8 ulp(16) < 3e-14 per pass, < 2e-13 after four passes.  A decision
+  of the code (vertex strictly beyond an edge or not) can therefore differ from the exact decision only for
+  geometry within 2e-13 of a box edge line.  All "must be non-nil" verdicts are issued only when the input
+  reaches the box SHRUNK by 1e-9 and all "must be nil" verdicts only when it misses the box GROWN by 1e-9
+  (or misses the open box exactly while staying within 1e-9 of it: the `touching` class, which is exact
+  on the integer / half-integer grids where no rounding occurs in the comparisons that matter).
+
+  TRUSTED GEOMETRY (not proved in Lean): if no edge of a closed chain meets a convex set then the
+  even-odd parity is the same at every point of that set (so the box centre decides for the whole box).
+  The segment tests themselves are proved sound in OrbProofs/C08Nil.lean (`segMeetsClosed_false_sound`,
+  `segWitnessOpen_sound`); that a nil result implies an empty region and an empty boundary inside the open
+  box is `ring_nil_nothing_remains` / `polygon_nil_nothing_remains` / `geometry_nil_nothing_remains`. -/
+
+inductive Rem where
+  | yes                 -- certainly something remains (reaches the box shrunk by `tol`)
+  | no (why : String)   -- certainly nothing remains (misses the box grown by `tol`); `why` names the kind
+  | touch               -- 2-d only: misses the OPEN box exactly, but comes within `tol` of the closed box
+  | unknown
+deriving BEq, Repr, Inhabited
+
+def grow (b : Bound Q) (d : Q) : Bound Q := ⟨⟨b.lo.x - d, b.lo.y - d⟩, ⟨b.hi.x + d, b.hi.y + d⟩⟩
+def centre (b : Bound Q) : Pt Q := ⟨(b.lo.x + b.hi.x) / 2, (b.lo.y + b.hi.y) / 2⟩
+
+/-- Liang–Barsky: the parameter interval of the part of the segment `p q` in the closed box -/
+def lbInterval (b : Bound Q) (p q : Pt Q) : Option (Q × Q) :=
+  let axis (acc : Option (Q × Q)) (pc d lo hi : Q) : Option (Q × Q) :=
+    match acc with
+    | none => none
+    | some (t0, t1) =>
+      if d == 0 then (if lo ≤ pc && pc ≤ hi then some (t0, t1) else none) else
+      let ta := (lo - pc) / d; let tb := (hi - pc) / d
+      let (ta, tb) := if ta ≤ tb then (ta, tb) else (tb, ta)
+      let t0 := if t0 < ta then ta else t0
+      let t1 := if tb < t1 then tb else t1
+      if t0 ≤ t1 then some (t0, t1) else none
+  axis (axis (some (0, 1)) p.x (q.x - p.x) b.lo.x b.hi.x) p.y (q.y - p.y) b.lo.y b.hi.y
+
+/-- the closed segment has a point strictly inside the box (witness: the midpoint of the clipped part) -/
+def segInOpen (b : Bound Q) (p q : Pt Q) : Bool :=
+  match lbInterval b p q with
+  | some (t0, t1) => Orb.ClipSpec.segWitnessOpen b p q [(t0 + t1) / 2]
+  | none => false
+
+/-- winding number of the implicitly closed chain around `q` (signed count of the edges the upward ray
+    crosses; same half-open rule as `EvenOdd.crossesAbove`, so its parity is the even-odd parity) -/
+def winding (r : List (Pt Q)) (q : Pt Q) : Int :=
+  (Orb.EvenOdd.edges r).foldl (fun acc (s, e) =>
+    if s.x ≤ q.x && q.x < e.x && Orb.EvenOdd.cross s e q < 0 then acc + 1
+    else if e.x ≤ q.x && q.x < s.x && 0 < Orb.EvenOdd.cross s e q then acc - 1 else acc) 0
+
+/-- the centre of the box is outside the ring under BOTH fill rules (even-odd and non-zero winding): a
+    self-overlapping ring can wind twice around the box — empty under the even-odd rule, but with signed
+    area 2·box, which the area-additivity clause counts; such a ring is left undecided -/
+def outsideBoth (r : List (Pt Q)) (q : Pt Q) : Bool := !(Orb.EvenOdd.inside r q) && winding r q == 0
+
+def pathSegs (l : List (Pt Q)) : List (Pt Q × Pt Q) := l.zip (l.drop 1)
+def isClosedL (l : List (Pt Q)) : Bool := !l.isEmpty && l.head? == l.getLast?
+
+/-- a closed ring (chain ∪ even-odd region) against the box -/
+def ringRem (b : Bound Q) (r : List (Pt Q)) : Rem :=
+  if r.isEmpty then .no "empty" else
+  if !isClosedL r then .unknown else
+  let bIn := grow b (-tol); let bOut := grow b tol
+  let segs := Orb.EvenOdd.edges r
+  if segs.any (fun s => segInOpen bIn s.1 s.2) then .yes else
+  -- a degenerate ring lying in the closed box on its boundary: governed by "inside ⇒ unchanged"
+  if r.all (inClosed b) then .unknown else
+  if !(segs.any fun s => Orb.ClipSpec.segMeetsClosed bOut s.1 s.2) then
+    (if Orb.EvenOdd.inside r (centre b) then .yes else if outsideBoth r (centre b) then .no "sliver-disjoint" else .unknown)
+  else if !(segs.any fun s => segInOpen b s.1 s.2) then
+    (if Orb.EvenOdd.inside r (centre b) then .yes else if outsideBoth r (centre b) then .touch else .unknown)
+  else .unknown
+
+/-- the hole's region swallows the whole (grown) box -/
+def holeSwallows (b : Bound Q) (h : List (Pt Q)) : Bool :=
+  isClosedL h && !((Orb.EvenOdd.edges h).any fun s => Orb.ClipSpec.segMeetsClosed (grow b tol) s.1 s.2) &&
+    Orb.EvenOdd.inside h (centre b)
+
+def polyRem (b : Bound Q) (pg : List (List (Pt Q))) : Rem :=
+  match pg with
+  | [] => .no "empty"
+  | outer :: holes =>
+    match ringRem b outer with
+    | .yes =>
+      if holes.any (holeSwallows b) then .no "hole-covers-box" else
+      if holes.all (fun h => match ringRem b h with | .no _ => true | _ => false) then .yes else .unknown
+    | r => r
+
+def combineRem (l : List Rem) : Rem :=
+  if l.any (· == .yes) then .yes else
+  if l.all (fun r => match r with | .no _ => true | _ => false) then
+    (match l.find? (fun r => match r with | .no w => w != "empty" && w != "far" | _ => false) with
+     | some r => r
+     | none => .no (if l.isEmpty then "empty" else "far")) else
+  if l.all (fun r => match r with | .no _ => true | .touch => true | _ => false) then .touch else .unknown
+
+def lineRem (b : Bound Q) (l : List (Pt Q)) : Rem :=
+  match l with
+  | [] => .no "empty"
+  | [_] => .unknown
+  | _ =>
+    let segs := pathSegs l
+    if segs.any (fun s => segInOpen (grow b (-tol)) s.1 s.2) then .yes else
+    if !(segs.any fun s => Orb.ClipSpec.segMeetsClosed (grow b tol) s.1 s.2) then .no "far" else .unknown
+
+def geomQ (g : Geom UInt64) : Option (Geom Q) :=
+  if (coords g).all (fun c => (bitsToRat? c).isSome) then
+    some (mapGeom (fun c => (bitsToRat? c).getD 0) g) else none
+
+/-- classification of a whole geometry.  Points and Bounds are exact (comparisons only: closed box). -/
+partial def remOf (b : Bound Q) : Geom Q → Rem
+  | .point p => if inClosed b p then .yes else .no "far"
+  | .multiPoint ps => if ps.isEmpty then .no "empty" else if ps.any (inClosed b) then .yes else .no "far"
+  | .lineString l => lineRem b l
+  | .multiLineString ls => combineRem (ls.map (lineRem b))
+  | .ring r => ringRem b r
+  | .polygon pg => polyRem b pg
+  | .multiPolygon mp => combineRem (mp.map (polyRem b))
+  | .bound lo hi =>
+    let c : Bound Q := ⟨lo, hi⟩
+    if c.isEmpty then .no "empty-bound" else if b.intersects c then .yes else .no "far"
+  | .collection gs => combineRem (gs.map (remOf b))
+
+/-- rings of a (result) geometry, at any depth; `true` marks a hole -/
+partial def ringsOf : Geom Q → List (Bool × List (Pt Q))
+  | .ring r => [(false, r)]
+  | .polygon pg => pg.zipIdx.map fun (r, i) => (i != 0, r)
+  | .multiPolygon mp => mp.flatMap fun pg => pg.zipIdx.map fun (r, i) => (i != 0, r)
+  | .collection gs => gs.flatMap ringsOf
+  | _ => []
+
+/-- a non-empty ring all of whose edges miss the OPEN box and that does not enclose the box: it lies on
+    the box boundary and encloses nothing -/
+def isSliver (b : Bound Q) (r : List (Pt Q)) : Bool :=
+  !r.isEmpty && !((Orb.EvenOdd.edges r).any fun s => segInOpen b s.1 s.2) && outsideBoth r (centre b)
+
+/-- a ring that IS the box boundary as far as the open box can tell (edges miss the open box, encloses it) -/
+def isFullBox (b : Bound Q) (r : List (Pt Q)) : Bool :=
+  !r.isEmpty && !((Orb.EvenOdd.edges r).any fun s => segInOpen b s.1 s.2) && Orb.EvenOdd.inside r (centre b)
+
+/-- executable statement, on the implementation's RESULT, of "nothing of a vanished ring stays behind":
+    no ring of the result (other than an input ring returned unchanged) may be a sliver, and no polygon
+    of the result may have a hole that covers the whole box -/
+def resultDefects (b : Bound Q) (inp res : Geom Q) : Option String :=
+  let inRings := (ringsOf inp).map (·.2)
+  -- the property quantifies over CLOSED rings: Go's ring() does not clip the implicitly closed polygon of an
+  -- open vertex list, so nothing is claimed about regions then
+  if !(inRings.all fun r => r.isEmpty || isClosedL r) then none else
+  let rs := ringsOf res
+  if rs.any (fun (_, r) => isSliver b r && !(inRings.contains r)) then some "sliver-in-result" else
+  if rs.any (fun (h, r) => h && isFullBox b r) then some "hole-covers-box-in-result" else none
+
+/-- the model's verdict on the MEMBERS of a collection (used only when the model's outcome is the
+    implementation's outcome bit for bit, so that a member's model result is what the implementation
+    returned for it) -/
+partial def memberViolations (bq : Bound Q) (bf : Bound F) (g : Geom UInt64) : List String :=
+  match g with
+  | .collection gs => gs.flatMap fun m =>
+      -- `clip.Collection` calls `clip.Geometry` on every member: `r` is what it got for `m`
+      let r := geometry ebF bf (mapGeom Float.ofBits m)
+      let here : List String :=
+        match geomQ m with
+        | none => []
+        | some mq =>
+          (match remOf bq mq, r with
+           | .yes, some none => ["nil-but-remains"]
+           | .no w, some (some _) => ["nothing-remains-not-nil " ++ w]
+           | .touch, some (some _) => ["nothing-remains-not-nil sliver-touching"]
+           | _, _ => [])
+      -- the members of a nested collection were clipped one by one only if the nested collection passed
+      -- its own bound pre-test, which is certain only when its result is not nil
+      here ++ (match r with | some (some _) => memberViolations bq bf m | _ => [])
+  | _ => []
+
+/-- `propfail` outranks `diff`, but never hides it: a property failure on a case where the model and the
+    implementation disagree carries the model's outcome, so that no known-finding pattern (they are
+    anchored) can absorb a model/implementation disagreement -/
+def finish (m got s : String) : String :=
+  if s.startsWith "propfail" then (if m == got then s else s ++ " | diff " ++ m)
+  else if m == got then s else "diff " ++ m
+
 def showRingOpt (r : Option (List (Pt F))) : String :=
   match r with
   | some [] => "nil"
@@ -73,7 +262,7 @@ def handleRing (inp out : Toks) : String :=
     if out == ["panic"] then "propfail panic" else
     let m := showRingOpt (ring (boundF b) (ptsF ps))
     let got := " ".intercalate out
-    let fin (s : String) : String := if s.startsWith "propfail" || m == got then s else "diff " ++ m
+    let fin (s : String) : String := finish m got s
     fin <|
     let res : Option (List (Pt UInt64)) := if out == ["nil"] then some [] else (pts out).map (·.1)
     match res, boundQ b, ptsQ ps, ptsQ qs with
@@ -99,7 +288,17 @@ def handleRing (inp out : Toks) : String :=
          let disjoint := pq.all (fun p => p.x < bq.lo.x) || pq.all (fun p => p.x > bq.hi.x) ||
                          pq.all (fun p => p.y < bq.lo.y) || pq.all (fun p => p.y > bq.hi.y)
          if disjoint && !rq.isEmpty then "propfail disjoint-not-nil" else
-         if rq.isEmpty then "ok ring-nil" else if rq == pq then "ok ring-unchanged" else "ok ring-cut")
+         -- "a ring disjoint from the box yields nothing" / "nil exactly when nothing remains", exact:
+         -- the ring's chain and even-odd region against the box (see `ringRem`)
+         let rem := if closedIn then ringRem bq pq else Rem.unknown
+         (match rem, rq.isEmpty with
+          | .yes, true => "propfail nil-but-remains"
+          | .no w, false => "propfail nothing-remains-not-nil " ++ w
+          | .touch, false => "propfail nothing-remains-not-nil sliver-touching"
+          | _, _ =>
+            if closedIn && rq != pq && isSliver bq rq then "propfail sliver-in-result" else
+            let t := match rem with | .yes => "" | .no _ => " far" | .touch => " touching" | .unknown => " undecided"
+            if rq.isEmpty then "ok ring-nil" ++ t else if rq == pq then "ok ring-unchanged" else "ok ring-cut" ++ t))
     | _, _, _, _ => "skip non-finite"
 
 /-- `split <box> <axis> <coord> <pts> => full ; a ; b` (each `nil` or pts): signed area is additive -/
@@ -121,7 +320,7 @@ def handleSplit (inp out : Toks) : String :=
     let pf := ptsF ps
     let m := " ; ".intercalate [showRingOpt (ring bf pf), showRingOpt (ring b1 pf), showRingOpt (ring b2 pf)]
     let got := " ".intercalate out
-    let fin (s : String) : String := if s.startsWith "propfail" || m == got then s else "diff " ++ m
+    let fin (s : String) : String := finish m got s
     fin <|
     let parts := got.splitOn " ; "
     let toQ (s : String) : Option (List (Pt Q)) :=
@@ -152,17 +351,28 @@ def handleGeom (inp out : Toks) : String :=
   | none => "bad input"
   | some (b, v) =>
     if out == ["panic"] then "propfail panic" else
-    let m : String := match v with
-      | .val g =>
-        (match geometry ebF (boundF b) (mapGeom Float.ofBits g) with
-         | none => "stuck"
-         | some none => "nil"
-         | some (some r) => showGeom (mapGeom Float.toBits r))
-      | _ => "nil"
+    let m : String :=
+      (match Orb.ClipSpec.clipV ebF (boundF b) (mapGVal Float.ofBits v) with
+       | none => "stuck"
+       | some none => "nil"
+       | some (some r) => showGeom (mapGeom Float.toBits r))
     let got := " ".intercalate out
-    let fin (s : String) : String := if s.startsWith "propfail" || m == got then s else "diff " ++ m
+    let fin (s : String) : String := finish m got s
     fin <|
-    if got == "nil" then "ok geom-nil" else
+    -- the exact classification of the input (nil interface / typed nil: nothing there)
+    let boxOK := match boundQ b with | some bq => bq.lo.x < bq.hi.x && bq.lo.y < bq.hi.y | none => false
+    let gq : Option (Geom Q) := match v with | .val g => geomQ g | _ => none
+    let rem : Rem := match v, boundQ b, gq with
+      | .val _, some bq, some q => if boxOK then remOf bq q else .unknown
+      | .val _, _, _ => .unknown
+      | _, _, _ => .no "empty"
+    let remTag := match rem with
+      | .yes => "" | .no w => if w.startsWith "sliver" then " far" else " " ++ w
+      | .touch => " touching" | .unknown => " undecided"
+    if got == "nil" then
+      (match rem with
+       | .yes => "propfail nil-but-remains"
+       | _ => "ok geom-nil" ++ remTag) else
     -- "returns nil exactly when nothing remains": a typed-nil or vertex-less value is not nil
     (if (out.drop 1).any (fun t => ["nMP", "nLS", "nMLS", "nR", "nPG", "nMPG", "nC"].contains t) then
        "propfail empty-result-not-nil typed-nil-member" else
@@ -177,9 +387,143 @@ def handleGeom (inp out : Toks) : String :=
     match geom out, boundQ b with
     | some (r, _), some bq =>
       (match ptsQ (allPts r) with
-       | some vs => if vs.all (inBoxTol bq) then (match r with | .collection _ => "ok geom-coll" | _ => "ok geom") else "propfail vertex-outside-box"
+       | some vs =>
+         if !(vs.all (inBoxTol bq)) then "propfail vertex-outside-box" else
+         -- nil ⇔ nothing remains, judged on the whole argument
+         (match rem with
+          | .no w => "propfail nothing-remains-not-nil " ++ w
+          | .touch => "propfail nothing-remains-not-nil sliver-touching"
+          | _ =>
+            -- … on the rings of the result (slivers, holes that cover the box) …
+            (match gq, geomQ r with
+             | some q, some rq => if boxOK then resultDefects bq q rq else none
+             | _, _ => none) |> fun d =>
+            match d with
+            | some w => "propfail " ++ w
+            | none =>
+              -- … and member by member through the model, when the model's outcome IS the outcome
+              let mv := match v with
+                | .val g => if boxOK && m == got then memberViolations bq (boundF b) g else []
+                | _ => []
+              match mv with
+              | w :: _ => "propfail member " ++ w
+              | [] =>
+                -- holes: a hole that certainly reaches into the box must still be there
+                let holesOK : Bool := match gq, geomQ r with
+                  | some (.polygon (_ :: hs)), some (.polygon (_ :: hs')) =>
+                    if boxOK then decide ((hs.filter fun h => ringRem bq h == .yes).length ≤ hs'.length) else true
+                  | some (.polygon (_ :: hs)), some _ =>
+                    if boxOK then !(hs.any fun h => ringRem bq h == .yes) else true
+                  | _, _ => true
+                if !holesOK then "propfail hole-dropped-but-remains" else
+                (match r with | .collection _ => "ok geom-coll" | _ => "ok geom") ++ remTag)
        | none => "skip non-finite")
     | _, _ => "bad output"
+
+/-! ### `(*mvt.Layer).Clip` / `mvt.Layers.Clip` (encoding/mvt/clip.go): in-place compaction of `l.Features` -/
+
+def gvals : Nat → P (List (GVal UInt64))
+  | 0 => fun ts => some ([], ts)
+  | n+1 => fun ts => do
+    let (g, ts) ← gval ts
+    let (gs, ts) ← gvals n ts
+    pure (g :: gs, ts)
+
+def layersP : Nat → P (List (List (GVal UInt64)))
+  | 0 => fun ts => some ([], ts)
+  | n+1 => fun ts => do
+    let (k, ts) ← nat ts
+    let (fs, ts) ← gvals k ts
+    let (ls, ts) ← layersP n ts
+    pure (fs :: ls, ts)
+
+def idGeoms : Nat → P (List (Nat × GVal UInt64))
+  | 0 => fun ts => some ([], ts)
+  | n+1 => fun ts => do
+    let (i, ts) ← nat ts
+    let (g, ts) ← gval ts
+    let (r, ts) ← idGeoms n ts
+    pure ((i, g) :: r, ts)
+
+def gvalPts (v : GVal UInt64) : List (Pt UInt64) := match v with | .val g => allPts g | _ => []
+
+/-- outcome of one layer: `<at> (<id> <geom>)^at <n-at> <stale id>^(n-at) <a|m>` -/
+def layerOutP : P (List (Nat × GVal UInt64) × List Nat × String) := fun ts => do
+  let (k, ts) ← nat ts
+  let (kept, ts) ← idGeoms k ts
+  let (s, ts) ← nat ts
+  let (stale, ts) ← many nat s ts
+  let (al, ts) ← tok ts
+  pure ((kept, stale, al), ts)
+
+def layerOutsP : Nat → P (List (List (Nat × GVal UInt64) × List Nat × String))
+  | 0 => fun ts => some ([], ts)
+  | n+1 => fun ts => do
+    let (x, ts) ← layerOutP ts
+    let (r, ts) ← layerOutsP n ts
+    pure (x :: r, ts)
+
+def showLayerSt (st : Orb.ClipSpec.LayerSt Nat (Geom F)) : String :=
+  let k := st.kept.foldl (fun s (i, g) => s ++ " " ++ toString i ++ " " ++ showGeom (mapGeom Float.toBits g)) (toString st.kept.length)
+  let t := st.stale.foldl (fun s i => s ++ " " ++ toString i) (toString st.stale.length)
+  k ++ " " ++ t ++ " a"
+
+/-- `layer <box> <L> (<k> <gval>^k)^L => (<layer outcome>)^L`; feature ids are 0, 1, … in input order -/
+def handleLayer (inp out : Toks) : String :=
+  match (do
+    let (b, i) ← boundP inp
+    let (nl, i) ← nat i
+    let (ls, _) ← layersP nl i
+    pure (b, ls)) with
+  | none => "bad layer"
+  | some (b, ls) =>
+    if out == ["panic"] then "propfail panic" else
+    -- number the features
+    let numbered : List (List (Nat × GVal UInt64)) :=
+      (ls.foldl (fun (acc : List (List (Nat × GVal UInt64)) × Nat) fs =>
+        (acc.1 ++ [fs.zipIdx.map fun (g, i) => (acc.2 + i, g)], acc.2 + fs.length)) ([], 0)).1
+    let bf := boundF b
+    let models := numbered.map fun fs =>
+      Orb.ClipSpec.layerClip (fun (v : GVal UInt64) => Orb.ClipSpec.clipV ebF bf (mapGVal Float.ofBits v)) fs
+    let m : String := " ".intercalate (models.map fun r => match r with | some st => showLayerSt st | none => "stuck")
+    let got := " ".intercalate out
+    let fin (s : String) : String := finish m got s
+    fin <|
+    match layerOutsP ls.length out, boundQ b with
+    | some (outs, []), some bq =>
+      if !(bq.lo.x < bq.hi.x && bq.lo.y < bq.hi.y) then "skip degenerate-box" else
+      -- executable statement: per layer, the survivors are a subsequence of the features, every
+      -- feature that certainly has something in the box survives, none that certainly has nothing does,
+      -- no vertex outside the box, the slice is compacted in place, nothing is lost from the array
+      let verdicts := (numbered.zip outs).map fun (fs, (kept, stale, al)) =>
+        let ids := fs.map (·.1)
+        let keptIds := kept.map (·.1)
+        if !(keptIds.isSublist ids) then "propfail layer-order" else
+        if (keptIds ++ stale).length != ids.length || !(stale.all ids.contains) then "propfail layer-cells" else
+        if al != "a" then "propfail layer-not-in-place" else
+        if kept.any (fun (_, g) => (gvalPts g).isEmpty) then "propfail layer-empty-feature-kept" else
+        if kept.any (fun (_, g) => match ptsQ (gvalPts g) with | some vs => !(vs.all (inBoxTol bq)) | none => false) then
+          "propfail vertex-outside-box" else
+        let bad := fs.filterMap fun (i, v) =>
+          let rem : Rem := match v with
+            | .val g => (match geomQ g with | some q => remOf bq q | none => .unknown)
+            | _ => .no "empty"
+          match rem, keptIds.contains i with
+          | .yes, false => some "propfail nil-but-remains"
+          | .no w, true => some ("propfail nothing-remains-not-nil " ++ w)
+          | .touch, true => some "propfail nothing-remains-not-nil sliver-touching"
+          | _, _ => none
+        match bad with
+        | w :: _ => w
+        | [] => "ok"
+      (match verdicts.find? (· != "ok") with
+       | some w => w
+       | none =>
+         let nk := (outs.map fun (k, _, _) => k.length).foldl (· + ·) 0
+         let nf := (ls.map List.length).foldl (· + ·) 0
+         if nf == 0 then "ok triv layer-empty" else
+         if nk == 0 then "ok layer all-dropped" else if nk == nf then "ok layer all-kept" else "ok layer compacted")
+    | _, _ => "bad layer-out"
 
 /-! ### heap level: `clip.Geometry` on the caller's own memory (`Orb.HeapOps.geometryH`) -/
 
@@ -202,7 +546,7 @@ def handleClipH (inp out : Toks) : String :=
         showPtss (Driver.HeapOps.storeBits (σ'.take n0)) ++ " " ++
           (match r with | none => "nil" | some r => Driver.HeapOps.showSGeom n0 σ' r)
     let got := " ".intercalate out
-    let fin (s : String) : String := if s.startsWith "propfail" || m == got then s else "diff " ++ m
+    let fin (s : String) : String := finish m got s
     fin <|
     match Driver.HeapOps.heapP out with
     | none => "bad cliph-out"
@@ -259,6 +603,7 @@ def handle (ts : Toks) : String :=
     | "ring" => handleRing inp out
     | "split" => handleSplit inp out
     | "geom" => handleGeom inp out
+    | "layer" => handleLayer inp out
     | _ => "bad op " ++ op
   | [] => "bad empty"
 
